@@ -98,7 +98,7 @@ def main(tier, seed):
             fresh_jobs.append({"kind": "session", "id": f"fresh|{pid}|{opt_key(o)}", "actions": acts, "programs": PROGRAMS,
                                "timeout": 200})
     fres = pool.run_jobs(fresh_jobs, per_job_timeout=200, fresh_each=True)
-    fresh, reference = {}, {}
+    fresh, reference, normalizes = {}, {}, {}
     for pid in prog_ids:
         fresh[pid] = {}
         for o in optsets:
@@ -106,9 +106,11 @@ def main(tier, seed):
             if "actions" not in r:
                 run.error(f"fresh reference failed for {pid} {opt_key(o)}: {r.get('stage')}")
                 fresh[pid][opt_key(o)] = []
+                normalizes.setdefault(pid, {})[opt_key(o)] = False
                 continue
             last = r["actions"][-1]
             fresh[pid][opt_key(o)] = last["fresh"]
+            normalizes.setdefault(pid, {})[opt_key(o)] = "exc" not in last["result"]
             reference[(pid, opt_key(o))] = last["result"]
     names = {pid: user_names_of(PROGRAMS[pid]["text"]) for pid in prog_ids}
     usergen = {pid: [{"p": m.group(1), "k": int(m.group(2))} for n in names[pid] for m in [GEN_RE.fullmatch(n)] if m]
@@ -121,7 +123,7 @@ def main(tier, seed):
     try:
         batch = os.path.join(work, "batch.json")
         json.dump({"options": OPTIONS, "maxLen": maxlen, "reserve": True,
-                   "programs": [{"id": pid, "userGen": usergen[pid], "fresh": fresh[pid]} for pid in prog_ids]},
+                   "programs": [{"id": pid, "userGen": usergen[pid], "fresh": fresh[pid], "normalizes": normalizes[pid]} for pid in prog_ids]},
                   open(batch, "w"))
         cfg = os.path.join(work, "s.cfg")
         open(cfg, "w").write("SPECIFICATION Spec\nINVARIANT CounterOK\nINVARIANT NoCollision\nPROPERTY FlagFollows\nCONSTRAINT Emit\nCHECK_DEADLOCK FALSE\n")
@@ -175,7 +177,7 @@ def main(tier, seed):
                 opt ^= {a["o"]}
             model_settings = {k: (k in opt) for k in OPTIONS}
             if real["counter"] != a["counter"] or real["settings"] != model_settings or \
-                    (a["a"] == "analyze" and real["flag"] != ("exact" in opt)):
+                    (a["a"] == "analyze" and normalizes[a["p"]][opt_key(opt)] and real["flag"] != ("exact" in opt)):
                 state_mismatch += 1
                 run.violation({"session-state"}, {"clause": "hidden state differs from the Session model", "history": h,
                                                   "at": a, "real": {k: real[k] for k in ("counter", "flag", "settings")}})
